@@ -80,7 +80,7 @@ fn fixed_cases() -> Vec<Case> {
     Case { id: "scan-html-four-docs".into(), files: vec![("s.html".into(), "<html><body>\n<script lang=\"ts\">\nfoo(2);\n</script>\n<b>x</b>\n<style>\na { color: red }\n</style><script>\nfoo(1);\n</script></body></html>\n".into())], rules: vec![r1.clone(), r4.clone(), r5.clone(), r6.clone()] },
     // unused suppression comments are findings with a fix of their own (the comment is deleted); they sit before,
     // between and after other fixable findings
-    Case { id: "scan-unused-suppressions".into(), files: vec![("u.js".into(), "// ast-grep-ignore: r3\nfoo(1);\nkeep(2); // ast-grep-ignore: r1\nfoo(3);\n// ast-grep-ignore\nnothing();\n".into()),
+    Case { id: "scan-unused-suppressions".into(), files: vec![("u.js".into(), "// ast-grep-ignore: r3\nfoo(1);\nkeep(2); // ast-grep-ignore: r1\nfoo(3);\n// ast-grep-ignore\nnothing();\nfoo(9); // ast-grep-ignore: r1\n// ast-grep-ignore\nfoo(10);\n".into()),
                                                               ("v.js".into(), "foo(4); // ast-grep-ignore: r3\n".into())], rules: vec![r1.clone(), r3.clone()] },
     Case { id: "scan-two-rules".into(), files: vec![("a.js".into(), "foo(foo(1)); keep(2);\nfoo(3);\n".into()), ("b.js".into(), "nothing();\n".into())], rules: vec![r1.clone(), r2.clone(), r3.clone()] },
     Case { id: "scan-html-js-css".into(), files: vec![("p.html".into(), "<html><style>\na { color: red }\n</style><script>\nfoo(1);\n</script></html>\n".into())], rules: vec![r1.clone(), r4.clone()] },
